@@ -1556,6 +1556,10 @@ func c07Cfgs(env *mc.Env) []*c07Cfg {
 		{name: "hist-gpu2-rdma3-shared-pcie", gpus: 2, topo: true, rdma: 3, rdmaPer: 2, scorer: "least", filtered: true,
 			shapes: []string{"R100", "G1R1", "G1R100", "G1R200"}, variants: []c07Variant{base, {"rdma1-unhealthy", c07VUnhealthy, r1}},
 			pods: 3, depthQ: 4, depthT: 7, share: 0.12},
+		// the FIRST report carries one GPU only, a later one adds the second (every index derived from the inventory - the
+		// topology scope tree too - has to follow: seed C07-8)
+		{name: "hist-gpu2-inventory-grows", gpus: 2, topo: true, scorer: "most", filtered: true, shapes: []string{"W1", "F50", "W2"},
+			variants: []c07Variant{gpuVariants[2], base}, pods: 3, depthQ: 4, depthT: 7, share: 0.08},
 		{name: "hist-gpu2", gpus: 2, topo: true, scorer: "most", filtered: true, shapes: []string{"W1", "W2", "F50", "F25", "M2x50"},
 			variants: gpuVariants, pods: 3, unreserve: true, depthQ: 6, depthT: 10, share: 0.5},
 	}
